@@ -21,8 +21,14 @@ export VERIF_BUILD_DIR="$BDIR"
 [ -n "$GROUPS" ] && export VS_GROUPS="$GROUPS"
 [ -n "$RUNS" ] && export VERIF_RUNS="$RUNS"
 export VERIF_NO_EVIDENCE=1
-"$VERIF/bin/check" "$PROP" quick
-RC=$?
+# PROP may be a comma separated list: the checks then share one scratch build
+RC=0
+for P in $(echo "$PROP" | tr ',' ' '); do
+  "$VERIF/bin/check" "$P" quick
+  R=$?
+  echo "=== $P exit=$R"
+  [ $R -ne 0 ] && RC=$R
+done
 if [ -n "${MUT_WORKTREE:-}" ]; then git -C /repo worktree remove --force "$WT"; else git -C /repo checkout -- .; fi
 rm -rf "$BDIR"
 exit $RC
